@@ -107,6 +107,9 @@ func addStubIntrinsics(t map[string]Intrinsic) {
 				m.unsupported("json.Encode of symbolic RawMessage")
 			}
 			native = json.RawMessage(b)
+			if sl, isSl := v.V.([]Value); isSl && sl == nil {
+				native = json.RawMessage(nil) // (encodes as null)
+			}
 		default:
 			switch x := v.V.(type) {
 			case string:
@@ -175,6 +178,64 @@ func addStubIntrinsics(t map[string]Intrinsic) {
 		*(v.V.(*Value)) = m.bytesValue(append([]byte{}, rm...))
 		return IfaceV{}
 	}
+	// jsonErr: the error value of a native json call, keeping the two error types callers tell apart with errors.As
+	jsonErr := func(m *Machine, err error) Value {
+		mk := func(name string, set func(st *types.Struct, sv StructV)) Value {
+			pkg := m.eng.Pkgs["encoding/json"]
+			if pkg == nil || pkg.Type(name) == nil {
+				return m.newErrorString(err.Error())
+			}
+			nt := pkg.Type(name).Type()
+			cell := new(Value)
+			*cell = m.zero(nt)
+			sv, ok := (*cell).(StructV)
+			st, ok2 := under(nt).(*types.Struct)
+			if !ok || !ok2 {
+				return m.newErrorString(err.Error())
+			}
+			set(st, sv)
+			return IfaceV{T: m.ptrTypeOf("encoding/json", name), V: cell}
+		}
+		setField := func(st *types.Struct, sv StructV, name string, v Value) {
+			for i := 0; i < st.NumFields(); i++ {
+				if st.Field(i).Name() == name {
+					sv[i] = v
+				}
+			}
+		}
+		var se *json.SyntaxError
+		var te *json.UnmarshalTypeError
+		switch {
+		case errors.As(err, &se):
+			return mk("SyntaxError", func(st *types.Struct, sv StructV) {
+				setField(st, sv, "msg", se.Error())
+				setField(st, sv, "Offset", m.tf.Const(64, uint64(se.Offset)))
+			})
+		case errors.As(err, &te):
+			v := mk("UnmarshalTypeError", func(st *types.Struct, sv StructV) {
+				setField(st, sv, "Value", te.Value)
+				setField(st, sv, "Offset", m.tf.Const(64, uint64(te.Offset)))
+				setField(st, sv, "Struct", te.Struct)
+				setField(st, sv, "Field", te.Field)
+			})
+			// (its Type field is a reflect.Type, which is not interpreted: the message is kept aside)
+			if iv, ok := v.(IfaceV); ok {
+				if cell, ok := iv.V.(*Value); ok {
+					m.side("jsonUTEmsg")[cell] = te.Error()
+				}
+			}
+			return v
+		}
+		return m.newErrorString(err.Error())
+	}
+	t["(*encoding/json.UnmarshalTypeError).Error"] = func(m *Machine, fr *Frame, fn *ssa.Function, a []Value) Value {
+		if cell, ok := a[0].(*Value); ok {
+			if msg, ok := m.side("jsonUTEmsg")[cell].(string); ok {
+				return msg
+			}
+		}
+		return "json: cannot unmarshal value"
+	}
 	t["encoding/json.Unmarshal"] = func(m *Machine, fr *Frame, fn *ssa.Function, a []Value) Value {
 		m.noteStub("encoding/json.Unmarshal (native on concrete bytes)")
 		m.checkPooledBytes(fr, "json.Unmarshal", a[0])
@@ -192,22 +253,33 @@ func addStubIntrinsics(t map[string]Intrinsic) {
 		case isNamed(pt.Elem(), "encoding/json", "RawMessage"):
 			var rm json.RawMessage
 			if err := json.Unmarshal(data, &rm); err != nil {
-				return m.newErrorString(err.Error())
+				return jsonErr(m, err)
 			}
 			*target = m.bytesValue(append([]byte{}, rm...))
 			return IfaceV{}
 		case isString(pt.Elem()):
 			var s string
 			if err := json.Unmarshal(data, &s); err != nil {
-				return m.newErrorString(err.Error())
+				return jsonErr(m, err)
 			}
 			*target = s
 			return IfaceV{}
 		}
+		if sl, isSl := under(pt.Elem()).(*types.Slice); isSl {
+			if eb, isB := under(sl.Elem()).(*types.Basic); isB && eb.Kind() == types.Uint8 {
+				// []byte target: base64 in a JSON string
+				var bs []byte
+				if err := json.Unmarshal(data, &bs); err != nil {
+					return jsonErr(m, err)
+				}
+				*target = m.bytesValue(bs)
+				return IfaceV{}
+			}
+		}
 		if b, isB := under(pt.Elem()).(*types.Basic); isB && b.Kind() == types.Int {
 			var n int
 			if err := json.Unmarshal(data, &n); err != nil {
-				return m.newErrorString(err.Error()) // (the text of a type or range error echoes the offending literal)
+				return jsonErr(m, err) // (the text of a type or range error echoes the offending literal)
 			}
 			*target = m.tf.Const(64, uint64(n))
 			return IfaceV{}
